@@ -35,7 +35,7 @@ class FailSym(SymFunc):
         if self.log is not None:
             self.log.append(app)
         if self.fail_key is not None and app == self.fail_key:
-            raise make_exc(self.exc_kind)
+            raise self.shared if getattr(self, "shared", None) is not None else make_exc(self.exc_kind)
         if self.outputs is None:
             return app
         return tuple(f"out({o};{app})" for o in self.outputs)
@@ -82,7 +82,7 @@ class MapFunc:
         app = self.name + "(" + ",".join(f"{p}={mapsym.canon(kw[p])}" for p in self.params) + ")"
         self.log.append(app)
         if self.fail_key is not None and app == self.fail_key:
-            raise make_exc(self.exc_kind)
+            raise self.shared if getattr(self, "shared", None) is not None else make_exc(self.exc_kind)
         if app in self.slow:
             time.sleep(self.delay)
 
@@ -161,17 +161,32 @@ def parse_note(note: str, canon):
     return [name, [[k, canon(v)] for k, v in kw.items()]]
 
 
-def notes_obs(e, canon):
+def notes_obs(e, canon, last=False):
     """Observation of e.__notes__: ["note", fname, kwargs] when there is exactly one well-formed note,
-    ["notes", n] for another number of notes, ["badnote", text] when unparsable."""
+    ["notes", n] for another number of notes, ["badnote", text] when unparsable.
+    last=True (histories in which ONE exception instance is raised by several failing calls: add_note appends, so the
+    instance legitimately carries the notes of the earlier failures too): the LAST note, i.e. the annotation added by
+    the current failure, is the one observed."""
     notes = list(getattr(e, "__notes__", []) or [])
-    if len(notes) != 1:
+    if len(notes) != 1 and not (last and notes):
         return ["notes", len(notes)]
     try:
-        n, kw = parse_note(notes[0], canon)
+        n, kw = parse_note(notes[-1], canon)
     except Exception:  # noqa: BLE001
-        return ["badnote", notes[0][:200]]
+        return ["badnote", notes[-1][:200]]
     return ["note", n, kw]
+
+
+def user_funcs(pl):
+    """The structural callables (FailSym / MapFunc) behind the PipeFuncs of a pipeline built by build_pipe/build_map
+    (local=False): the PipeFunc copies made by Pipeline share them, so a history can re-target the failing call."""
+    return [f.func for f in pl.functions]
+
+
+def retarget(pl, fail_key, shared=None):
+    for uf in user_funcs(pl):
+        uf.fail_key = fail_key
+        uf.shared = shared
 
 
 # ------------------------------------------------------------------ harness timeout ("returns instead of hanging")
